@@ -139,6 +139,10 @@ where
         world.setup::<C::BatchSystemData>();
         self.dispatcher.setup(world);
     }
+
+    fn dispose(self, world: &mut World) {
+        self.dispatcher.dispose(world);
+    }
 }
 
 unsafe impl<C: Send> Send for BatchControllerSystem<'_, '_, C> {}
